@@ -276,6 +276,7 @@ class REPL(code.InteractiveConsole):
         self.spy_delimiter = spy_delimiter
         self.last_value = None
         self.print_last_value = True
+        self.input_failed = False
 
         if output_fn is None:
             self.output_fn = hy.repr
@@ -325,6 +326,7 @@ class REPL(code.InteractiveConsole):
             exc_info_override and self.locals.get("_hy_exc_info"))
         sys.excepthook(t, v, tb)
         self.locals[mangle("*e")] = v
+        self.input_failed = True
 
     def showsyntaxerror(self, filename=None, source=None):
         if filename is None:
@@ -350,6 +352,7 @@ class REPL(code.InteractiveConsole):
             self.showtraceback()
 
     def runsource(self, source, filename="<stdin>", symbol="exec"):
+        self.input_failed = False
         try:
             res = super().runsource(source, filename, symbol)
         except (HyMacroExpansionError, HyRequireError):
@@ -363,8 +366,9 @@ class REPL(code.InteractiveConsole):
             self.showtraceback()
             return False
 
-        # Shift exisitng REPL results
-        if not res:
+        # Shift exisitng REPL results, unless the input failed, in which
+        # case `last_value` is still the result of an earlier input.
+        if not res and not self.input_failed:
             next_result = self.last_value
             for sym in self._repl_results_symbols:
                 self.locals[sym], next_result = next_result, self.locals[sym]
